@@ -723,13 +723,17 @@ package iterator
 //@   ensures p(a) && p(b) && p(c) ==> spanOK(a, b, c, p, []T{a, b, c}, []T{}, s0, s1, s2, s3, s4, true)
 //@   ensures p(a) && p(b) && p(c) ==> spanOK(a, b, c, p, []T{a, b, c}, []T{}, s0, s1, s2, s3, s4, false)
 //
-//@ lemma boundedPartition[T any](a, b, c T, p func(T) bool, s0, s1, s2, s3, s4, s5 bool)
+//@ lemma boundedPartition[T any](a, b, c T, p func(T) bool, s0, s1, s2, s3, s4 bool)
 //@   prop C12 C20
 //@   option unroll
-//@   ensures p(a) && !p(b) && p(c) ==> partitionOK(a, b, c, p, []T{a, c}, []T{b}, s0, s1, s2, s3, s4, s5)
-//@   ensures !p(a) && p(b) && !p(c) ==> partitionOK(a, b, c, p, []T{b}, []T{a, c}, s0, s1, s2, s3, s4, s5)
-//@   ensures p(a) && p(b) && p(c) ==> partitionOK(a, b, c, p, []T{a, b, c}, []T{}, s0, s1, s2, s3, s4, s5)
-//@   ensures !p(a) && !p(b) && !p(c) ==> partitionOK(a, b, c, p, []T{}, []T{a, b, c}, s0, s1, s2, s3, s4, s5)
+//@   ensures p(a) && !p(b) && p(c) ==> partitionOK(a, b, c, p, []T{a, c}, []T{b}, s0, s1, s2, s3, s4, true)
+//@   ensures p(a) && !p(b) && p(c) ==> partitionOK(a, b, c, p, []T{a, c}, []T{b}, s0, s1, s2, s3, s4, false)
+//@   ensures !p(a) && p(b) && !p(c) ==> partitionOK(a, b, c, p, []T{b}, []T{a, c}, s0, s1, s2, s3, s4, true)
+//@   ensures !p(a) && p(b) && !p(c) ==> partitionOK(a, b, c, p, []T{b}, []T{a, c}, s0, s1, s2, s3, s4, false)
+//@   ensures p(a) && p(b) && p(c) ==> partitionOK(a, b, c, p, []T{a, b, c}, []T{}, s0, s1, s2, s3, s4, true)
+//@   ensures p(a) && p(b) && p(c) ==> partitionOK(a, b, c, p, []T{a, b, c}, []T{}, s0, s1, s2, s3, s4, false)
+//@   ensures !p(a) && !p(b) && !p(c) ==> partitionOK(a, b, c, p, []T{}, []T{a, b, c}, s0, s1, s2, s3, s4, true)
+//@   ensures !p(a) && !p(b) && !p(c) ==> partitionOK(a, b, c, p, []T{}, []T{a, b, c}, s0, s1, s2, s3, s4, false)
 //
 // The zero-value fp.Iterator is an empty iterator for every function of the package.
 //
